@@ -34,7 +34,8 @@ structure LeafLaws (F : Facts08) : Prop where
     (validateString F p s && validateNative p v) = p.valueOk v
   /-- leaf parsers never let a Python exception escape (C10 at the leaves) -/
   nocrash : ∀ p s e, leafFromText F p s ≠ .crash e
-  /-- only strings and byte arrays can have an empty text form -/
-  emptyText : ∀ p v, p.valueOk v = true → leafToText F p v = some [] → (v = .str [] ∨ v = .bytes [])
+  /-- only strings and byte arrays (and an enumeration member spelled "") can have an empty text form -/
+  emptyText : ∀ p v, p.valueOk v = true → leafToText F p v = some [] →
+    (v = .str [] ∨ v = .bytes [] ∨ v = .enum [])
 
 end SpyneModel
